@@ -63,7 +63,10 @@ type RTScn struct {
 	FiltersOff bool `json:"filters_off,omitempty"`
 	// LingerMs: the caller goes on using the result it was given - it serialises it when the call returns and again this
 	// long afterwards (virtual time: whatever the request left running gets to run); the two must agree
-	LingerMs int    `json:"linger_ms,omitempty"`
+	LingerMs int `json:"linger_ms,omitempty"`
+	// Overlap: a sibling request overlaps this one on the same Traceroute value (the HTTP server keeps one for all its
+	// requests); the sibling asks for the same thing except that it does NOT ask for private hops to be skipped
+	Overlap  bool   `json:"overlap,omitempty"`
 	RawQuery string `json:"raw_query,omitempty"`
 
 	// the world
@@ -196,6 +199,7 @@ func RunRT2(cfg vsched.Config, sc *RTScn) *RTResult { return runRT(cfg, sc, true
 func RunRT(cfg vsched.Config, sc *RTScn) *RTResult { return runRT(cfg, sc, false) }
 
 func runRT(cfg vsched.Config, sc *RTScn, twice bool) *RTResult {
+	twice = twice || sc.Overlap
 	keepProcessState := false
 	if sc.After != nil {
 		prev := *sc.After
@@ -526,6 +530,10 @@ func runRT(cfg vsched.Config, sc *RTScn, twice bool) *RTResult {
 			n2 := 0
 			for k := 0; k < 2; k++ {
 				vsched.Go(func() {
+					params := params
+					if k == 1 && sc.Overlap {
+						params.SkipPrivateHops = false
+					}
 					res, err := tr.RunTraceroute(context.Background(), params)
 					if k == 0 {
 						out.Res, out.Err = res, err
